@@ -12,3 +12,12 @@ claim(
     "abstract interpretation of the anchored functions into rational normal forms and intervals; identity by polynomial cross-multiplication",
     "DESIGN.md §5 C41",
 )
+
+claim(
+    "C07",
+    "other",
+    "Decides the continue-predicate of every StoppingCondition subclass exhaustively as a boolean function (full truth table over its comparison leaves and one opaque 'converged' atom, extracted by abstract interpretation of __call__): continue implies t<max_steps, t<min_steps within bounds implies continue, otherwise continue iff not converged; and that the run loop in checkpointed_fdtd is bounded by time_steps_total, starts at 0, uses the set-up condition as cond_fun and the plain forward step as body. The numerical convergence test and state equality with a plain run are not decided.",
+    TB + "; model of eqxi.while_loop as a recorded call; model of lax.cond as select",
+    "abstract interpretation of __call__ to a boolean formula + exhaustive truth-table comparison; recorded-call extraction of the loop",
+    "DESIGN.md §5 C07",
+)
